@@ -7,6 +7,7 @@ import (
 	"bufio"
 	"errors"
 	"fmt"
+	"io"
 	"net"
 	"net/http"
 	"sort"
@@ -96,6 +97,18 @@ func (w *RecWriter) Write(b []byte) (int, error) {
 func (w *RecWriter) WriteString(s string) (int, error) {
 	w.Calls = append(w.Calls, Call{Kind: "WriteString(around the wrapper)"})
 	return w.Write([]byte(s))
+}
+
+// ReadFrom makes the recording writer an io.ReaderFrom, as net/http's own response writer is (sendfile).  Like
+// WriteString it is a way around the wrapper: a call is recorded as such.
+func (w *RecWriter) ReadFrom(r io.Reader) (int64, error) {
+	w.Calls = append(w.Calls, Call{Kind: "ReadFrom(around the wrapper)"})
+	b, err := io.ReadAll(r)
+	n, werr := w.Write(b)
+	if err == nil {
+		err = werr
+	}
+	return int64(n), err
 }
 
 func (w *RecWriter) Flush() { w.Calls = append(w.Calls, Call{Kind: "Flush"}) }
